@@ -485,7 +485,44 @@ def _mutated_between(body, vo, from_bb, to_bb):
     return True
 
 
-DISCHARGERS = [d_guard, d_total, d_lock, d_range]
+VETTED = {r[0]: (r[1], r[2]) for r in _load_tsv('vetted_sites.tsv')}
+
+
+def _pre_bp_plus_minus_one(site):
+    """machine-checked precondition: the assert guards  x (+|-) const 1  on i32 where x is a field
+    of a value looked up in a registry (result of a local call), i.e. a registered precedence"""
+    t = site.term
+    if not t or t['kind'] != 'Overflow':
+        return False
+    body = site.body
+    cl = op_place(t['cond'])
+    if cl is None:
+        return False
+    for (b, i, kind, payload, dproj) in defuse(body).defs.get(cl['l'], []):
+        if kind == 'assign' and payload['k'] == 'binop' and payload['op'] in ('AddWithOverflow', 'SubWithOverflow') and payload.get('aty') == 'i32':
+            if op_const_int(payload['b']) != 1:
+                return False
+            o = single_origin(trace_operand(body, payload['a']))
+            # through unwrap of the lookup result
+            if o is not None and o.kind == 'callres' and o.proj and o.proj[-1] == ('f', 0):
+                return True
+    return False
+
+
+PRECONDITIONS = {'bp_plus_minus_one': _pre_bp_plus_minus_one}
+
+
+def d_vetted(site):
+    k = site.key
+    if k in VETTED:
+        pre, reason = VETTED[k]
+        fn = PRECONDITIONS.get(pre)
+        if fn and fn(site):
+            return ('D-vetted', '%s [precondition %s re-checked on this tree]' % (reason, pre))
+    return None
+
+
+DISCHARGERS = [d_guard, d_total, d_lock, d_range, d_vetted]
 
 
 def evaluate(bodies, extra_dischargers=(), rule='PANIC'):
